@@ -78,6 +78,8 @@ structure St where
   misread : List (String × Nat) := []
   qStaleShifted : Nat := 0
   qStalePlain : Nat := 0
+  /-- Bob's half-open circuits that were NOT loaded from disk (switch still up). -/
+  orphanHalfOpen : List String := []
   -- totals
   lines : Nat := 0
   cases : Nat := 0
@@ -107,6 +109,13 @@ structure St where
   inconclSetup : Nat := 0
   dirty : Nat := 0
   stalled : Nat := 0
+  crashes : Nat := 0
+  flaps : Nat := 0
+  caseCrashes : Nat := 0
+  caseFlaps : Nat := 0
+  crashKinds : List (String × Nat) := []
+  failsUnacked : Nat := 0
+  wireErr : Nat := 0
   settledPairs : Nat := 0
   failedPairs : Nat := 0
   kinds : List (String × Nat) := []
@@ -304,9 +313,23 @@ def quiescenceChecks (s : St) (dirty : Bool) : IO St := do
     -- the only things left over are htlcs whose FwdFilter bit was misread after a restart
     let dangling := s.pairs.toList.filter (fun pr => !pr.dead && !(pr.obs.up.gone && pr.obs.down.gone))
     let onlyMisread := !dangling.isEmpty && dangling.all (fun pr => s.misread.contains (pr.chUp, pr.idUp))
+    -- every dangling htlc is a locked-in incoming htlc whose circuit is half-open in the running
+    -- switch (not loaded from disk) while no add packet exists any more, and nothing else is left
+    let onlyOrphan := dirty && !dangling.isEmpty &&
+      dangling.all (fun pr => pr.obs.up == .locked && pr.obs.down == .absent &&
+        s.orphanHalfOpen.contains s!"{pr.chUp}.{pr.idUp}") &&
+      s.bobCirc == some (dangling.length, 0, 0) && s.fwdUnacked == dangling.length
     let tag := (if onlyShifted then " only_unacked_shifted=1" else "") ++ (if onlyMisread then " only_misread_fwdfilter=1" else "")
+      ++ (if onlyOrphan then " only_orphan_halfopen=1" else "")
     let dl := dangling.foldl (fun acc pr => acc ++ s!" {pr.chUp}.{pr.idUp}:{showLife pr.obs.up}/{showLife pr.obs.down}") ""
     s ← monitor s "no_dangling" s!"network idle (dirty={dirty}) but{d} bob_circuits={repr s.bobCirc} unacked_adds={s.fwdUnacked} dangling=[{dl} ]{tag}"
+  -- a downstream FAIL is handed to the switch exactly once (after the revocation) and carries
+  -- its SettleFailRef, so without any restart its forwarding-package entry must be acked
+  -- together with Bob's signature of the upstream fail
+  if !dirty && s.caseRestarts == 0 && s.caseFlaps == 0 then
+    s := { s with checks := s.checks + 1 }
+    if s.failsUnacked != 0 then
+      s ← monitor s "no_dangling" s!"response_ack: {s.failsUnacked} downstream fail(s) relayed and signed upstream but their SettleFailFilter bit is not set (no restart in this case)"
   if snapshotClean then
     for pr in s.pairs do
       if !(pr.obs.up.gone && pr.obs.down.gone) then
@@ -377,7 +400,7 @@ def step (s : St) (line : String) : IO St := do
     let s := { s with caseId := id, kind := kind, status := status, pairs := #[], pays := #[],
                        initEnds := [], qEnds := [], bobCirc := none, fwdUnacked := 0, caseWire := 0,
                        caseRestarts := 0, caseViol := 0, caseCause := "", misread := [],
-                       qStaleShifted := 0, qStalePlain := 0,
+                       qStaleShifted := 0, qStalePlain := 0, caseCrashes := 0, caseFlaps := 0, failsUnacked := 0, orphanHalfOpen := [],
                        cases := s.cases + 1, kinds := bump s.kinds kind }
     if status != "ran" then return { s with inconclSetup := s.inconclSetup + 1 }
     return s
@@ -397,6 +420,15 @@ def step (s : St) (line : String) : IO St := do
     return { s with pairs := s.pairs.map (fun (pr : PairRec) =>
       if pr.obs.down == .absent then { pr with idDown := none } else pr) }
   | "x" :: "cut" :: _ => return { s with cuts := s.cuts + 1 }
+  | "x" :: "crash" :: rest =>
+    return { s with crashes := s.crashes + 1, crashKinds := bump s.crashKinds ((kv? rest "after").getD "?"),
+                    caseCrashes := s.caseCrashes + 1 }
+  | "x" :: "flap" :: rest =>
+    let ch := (kv? rest "ch").getD "AB"
+    let s := { s with flaps := s.flaps + 1, caseFlaps := s.caseFlaps + 1 }
+    let s ← feedAll s ch .flapUp .flapDown s!"reconnect {ch}"
+    return { s with pairs := s.pairs.map (fun (pr : PairRec) =>
+      if pr.obs.down == .absent then { pr with idDown := none } else pr) }
   | "x" :: "pkgs" :: rest =>
     let sh := (kvNat? rest "stale_shifted").getD 0
     let pl := (kvNat? rest "stale_plain").getD 0
@@ -404,6 +436,9 @@ def step (s : St) (line : String) : IO St := do
     let ids := ((kv? rest "misread").getD "-").splitOn "," |>.filterMap nat?
     let s := { s with misread := s.misread ++ ids.map (fun i => (ch, i)) }
     if sh > 0 && pl == 0 then return { s with caseCause := "fwdpkg_index_shift" } else return s
+  | "q" :: "bobcirc" :: rest =>
+    let ids := ((kv? rest "halfopen_mem").getD "-").splitOn "," |>.filter (· != "-")
+    return { s with orphanHalfOpen := ids }
   | "q" :: "pkgs" :: rest =>
     return { s with qStaleShifted := s.qStaleShifted + (kvNat? rest "stale_shifted").getD 0,
                     qStalePlain := s.qStalePlain + (kvNat? rest "stale_plain").getD 0 }
@@ -418,7 +453,9 @@ def step (s : St) (line : String) : IO St := do
   | "q" :: "fwd" :: rest =>
     let adds := (kvNat? rest "adds").getD 0
     let acked := (kvNat? rest "acked").getD 0
-    return { s with fwdUnacked := s.fwdUnacked + (adds - acked) }
+    let ff := (kvNat? rest "fails").getD 0
+    let ffa := (kvNat? rest "failsacked").getD 0
+    return { s with fwdUnacked := s.fwdUnacked + (adds - acked), failsUnacked := s.failsUnacked + (ff - ffa) }
   | "q" :: rest =>
     match parseEnd rest with
     | some e => return { s with qEnds := s.qEnds ++ [e] }
@@ -479,6 +516,9 @@ def main : IO Unit := do
   IO.println s!"STAT tampered_preimages={s.badPreimages}"
   IO.println s!"STAT retransmitted_adds={s.retrans}"
   IO.println s!"STAT restarts={s.restarts}"
+  IO.println s!"STAT ungraceful_crashes={s.crashes}"
+  for (k, n) in s.crashKinds do IO.println s!"STAT crash_after_{k}={n}"
+  IO.println s!"STAT link_flaps={s.flaps}"
   IO.println s!"STAT cuts={s.cuts}"
   IO.println s!"STAT result_ok={s.resOk}"
   IO.println s!"STAT result_fail={s.resFail}"
